@@ -386,6 +386,25 @@ def run(tier="quick", seed=0):
                 report(case, cfg, sched, "wrap16")
             clean(cfg)
     per_family["wrap_16bit_advanced"] = 6
+    # a sequence number USED TWICE in one burst (3-bit sequence space, 14 commands): the first transmission of one command is lost
+    # (it is retransmitted and completes), and later the first transmission of another command - every position of the schedule
+    # in turn, among them the commands that are given the same number again - is lost too: each is retransmitted up to n_tries
+    # times in its own right, whatever happened earlier to a command that carried its number
+    n_reuse = 0
+    for w in (1, 2, 4):
+        for first in (sim.REQ_LOST, sim.REP_LOST):
+            for pos2 in range(4, 20):
+                for tries in (2, 3):
+                    sched = (first,) + (sim.OK,) * (pos2 - 1) + (sim.REQ_LOST,)
+                    cfg = {"n_tries": tries, "mask": 7, "bursts": [{"window": w, "cmds": [(0, 0)] * 14}]}
+                    case = Case(S, cfg, sched).run()
+                    ev += 1
+                    nontrivial += 1
+                    n_reuse += 1
+                    if case.viol:
+                        report(case, cfg, sched, "wrap_reuse")
+                    clean(cfg)
+    per_family["wrap_small_number_reused_after_a_retransmission"] = n_reuse
 
     # seeded sample of deeper schedules (depth 9) on the largest configuration
     n_rand = 1500 if tier == "quick" else 20000
